@@ -219,7 +219,7 @@ def declarations(P, chk):
                 if any(labs == (arm,) for roots, labs in q.variant_guards(b, bb))]
         key = "process|%s declaration" % arm
         if len(cans) != 1 or len(alis) != 1:
-            chk.fail(R_DECL, key + " registers canonical and aliases", b.loc(),
+            chk.fail(R_DECL, key + " registers canonical and every alias", b.loc(),
                      "expected one insert_canonical and one insert_alias on the %s arm, found %d / %d" % (arm, len(cans), len(alis)))
             continue
         cbb, ct = cans[0]
